@@ -117,3 +117,35 @@ Lemma mux_pools_no_use_after_put :
   /\ put_is_last_use "multiplex.Session.recvDataFromRemote" = true
   /\ put_is_last_use "multiplex.switchboard.pickRandConn" = true.
 Proof. repeat split; vm_compute; reflexivity. Qed.
+
+(* ---- a blocked writer must not be able to stop the receive loop.  Writers hold writingM
+   across the blocking send (Stream.Write / ReadFrom / Close -> obfuscateAndSend ->
+   switchboard.send -> conn.Write); the send of one side completes only when the other side's
+   receive loop (switchboard.deplex) reads again.  If anything on the receive path waited for a
+   mutex held across a send, both sides' loops could wait for their own writers for ever - a
+   deadlock without any lock-order cycle.  The model's deliver / read labels are always
+   enabled, i.e. it assumes the discipline: no mutex that may be held across the send is
+   acquired by (or held on entry to) a function reachable from deplex.  Computed here from the
+   call graph of the scanner (bool specialisations: closeStream[active=false] is what the
+   receive path reaches) *)
+Definition conn_write := "net.Conn.Write".
+Lemma writingM_is_held_across_the_send :
+  mem_s "multiplex.switchboard.send" (sinks mx conn_write) = true
+  /\ mem_s "Stream.writingM" (held_across mx conn_write) = true.
+Proof. split; vm_compute; reflexivity. Qed.
+(* not vacuous: the receive path does get to the passive close of a stream and to the re-sequencer *)
+Lemma receive_path_reaches_stream_close :
+  let r := reachable_from ["multiplex.switchboard.deplex"] in
+  mem_s "multiplex.Session.closeStream[active=false]" r = true
+  /\ mem_s "multiplex.streamBuffer.Write" r = true.
+Proof. split; vm_compute; reflexivity. Qed.
+Lemma receive_path_takes_no_lock_held_across_send :
+  path_avoids_send_locks mx conn_write "multiplex.switchboard.deplex" = true.
+Proof. vm_compute. reflexivity. Qed.
+
+(* ---- entries of the stream table: closeStream overwrites its entry with nil (the id stays
+   known), only the sweep of closeSession deletes (se_tab) *)
+Lemma stream_table_entries_deleted_only_by_closeSession :
+  removed_only_in mx "Session.streams" ["multiplex.Session.closeSession"] = true
+  /\ never_aliased mx "Session.streams" = true /\ deletes_are_on_fields mx = true.
+Proof. repeat split; vm_compute; reflexivity. Qed.
